@@ -62,8 +62,12 @@ def warm():
     session.install()
 
 
+SESSION = ["S"]        # the --session name of the run (other checks that borrow argv_for keep "S")
+SESSION_NAMES = ["S", "S", "canvas", "tests", "pass", "linkedin_hashes", "v", "run.1", "sess a", "data.sav"]
+
+
 def argv_for(flags, load=False):
-    a = ["-r", "R", "-s", "S"]
+    a = ["-r", "R", "-s", SESSION[0]]
     if load:
         a.append("--load")
     # the flags are repeated on --load cycles: whether they are also taken from the save file
@@ -212,7 +216,7 @@ class ResumeOracle:
             # the quit landed inside the Markov level of the very last pre-terminal: the queue is empty
             # afterwards, but the position inside the level must still have been saved
             try:
-                sav = session.read_sav(os.path.join(wr, "S.sav"))
+                sav = session.read_sav(os.path.join(wr, SESSION[0] + ".sav"))
                 has = "omen_guess_number" in sav.get("guessing_info", {})
             except Exception:
                 has = False
@@ -222,7 +226,7 @@ class ResumeOracle:
             if ctx.fired_in is None:
                 res.faults["quit_after_pop"] += 1
             try:
-                sav = session.read_sav(os.path.join(wr, "S.sav"))
+                sav = session.read_sav(os.path.join(wr, SESSION[0] + ".sav"))
                 self.saved_p = float(sav["guessing_info"]["max_probability"])
             except Exception as ex:
                 return ("save_file_unusable", {"cycle": c, "error": repr(ex)})
@@ -247,11 +251,11 @@ class ResumeOracle:
 def run_history(res, U, triggers, flags, wr, knob_tape=None, keep_stale_omn=False):
     """one quit/resume history: triggers for successive cycles, then a final cycle to exhaustion"""
     oracle = ResumeOracle(U, res)
-    if keep_stale_omn and os.path.exists(os.path.join(wr, "S.omn")):
+    if keep_stale_omn and os.path.exists(os.path.join(wr, SESSION[0] + ".omn")):
         # the session name was used before: its old .omn (another position, maybe another level) is still on the disk
-        stale = open(os.path.join(wr, "S.omn"), "rb").read()
+        stale = open(os.path.join(wr, SESSION[0] + ".omn"), "rb").read()
         clean_sessions(wr)
-        open(os.path.join(wr, "S.omn"), "wb").write(stale)
+        open(os.path.join(wr, SESSION[0] + ".omn"), "wb").write(stale)
         res.faults["stale_omn_from_earlier_session"] += 1
     else:
         clean_sessions(wr)
@@ -392,14 +396,14 @@ def session_refused(res, flags, wr, rdir, spec):
     r = run_cycle(flags, load=False, trigger=("pop", 2))
     if not r.ctx.fired:
         return
-    before = open(os.path.join(wr, "S.sav"), "rb").read()
+    before = open(os.path.join(wr, SESSION[0] + ".sav"), "rb").read()
     spec2 = dict(spec)
     spec2["uuid"] = "11111111-0000-4000-8000-000000000001"
     shutil.rmtree(rdir)
     worlds.write_ruleset(spec2, rdir)
     r2 = run_cycle(flags, load=True, trigger=None)
     res.faults["ruleset_retrained_between_quit_and_resume"] += 1
-    after = open(os.path.join(wr, "S.sav"), "rb").read()
+    after = open(os.path.join(wr, SESSION[0] + ".sav"), "rb").read()
     if r2.ctx.pops or r2.ctx.expansions or any(l for l in r2.lines):
         res.violate("C08", "uuid_mismatch_not_refused", {"lines": len(r2.lines), "pops": len(r2.ctx.pops)})
     elif before != after:
@@ -643,8 +647,13 @@ def extra_phase(tier, base_seed, prop="C08"):
 def run_one(tape, tier, prop):
     res = RunResult()
     res.stats["queue_size_knob_%s" % session.draw_queue_knob(tape)] += 1
-    if prop == "C08":
-        run_c08(tape, tier, res)
-    else:
-        run_c15(tape, tier, res)
+    # session names are free text; the save files are <name>.sav and <name>.omn next to the tool
+    SESSION[0] = tape.choice(SESSION_NAMES)
+    try:
+        if prop == "C08":
+            run_c08(tape, tier, res)
+        else:
+            run_c15(tape, tier, res)
+    finally:
+        SESSION[0] = "S"
     return res
